@@ -197,25 +197,25 @@ theorem filter_eq_singleton {K : Type} (p : K → Bool) (l : List K) (k : K) (hn
       simpa using ih hn.2 hk' (fun x hx => huniq x (by simp [hx]))
 
 /-! ### the hash join -/
-section join
-variable {L G α : Type} [DecidableEq L] [DecidableEq G] [Field α]
+section joinG
+variable {L G α ρ : Type} [DecidableEq L] [DecidableEq G]
 
-/-- the rows of `agg_df` whose taxon name is `name` -/
-theorem agg_filter_name (le : (L × Option G) → (L × Option G) → Bool) (useGrp : Bool) (t : Nat)
+/-- the rows of the aggregated frame whose taxon name is `name` (any aggregation `f`) -/
+theorem aggWith_filter_name (f : List (List α) → ρ) (le : (L × Option G) → (L × Option G) → Bool) (useGrp : Bool)
     (recs : List (Rec L G α)) (name : L) :
-    (agg le useGrp t recs).filter (fun kv => kv.1.1 = name) =
+    (aggWith f le useGrp recs).filter (fun kv => kv.1.1 = name) =
       ((aggKeys le useGrp recs).filter (fun k => k.1 = name)).map
-        (fun k => (k, colMeans t (groupRows useGrp recs k))) := by
-  unfold agg
+        (fun k => (k, f (groupRows useGrp recs k))) := by
+  unfold aggWith
   rw [List.filter_map]
   rfl
 
-/-- no record with a usable key carries the name ⇒ `KeyError` ⇒ the row stays NaN -/
-theorem lookupLast_none (le : (L × Option G) → (L × Option G) → Bool) (useGrp : Bool) (t : Nat)
+/-- no record with a usable key carries the name ⇒ `KeyError` -/
+theorem lookupLast_aggWith_none (f : List (List α) → ρ) (le : (L × Option G) → (L × Option G) → Bool) (useGrp : Bool)
     (recs : List (Rec L G α)) (name : L) (h : ∀ r ∈ recs, r.taxa = name → keyOf useGrp r = none) :
-    lookupLast (agg le useGrp t recs) name = none := by
+    lookupLast (aggWith f le useGrp recs) name = none := by
   unfold lookupLast
-  rw [agg_filter_name]
+  rw [aggWith_filter_name]
   have : (aggKeys le useGrp recs).filter (fun k => k.1 = name) = [] := by
     rw [List.filter_eq_nil_iff]
     intro k hk hkn
@@ -227,16 +227,15 @@ theorem lookupLast_none (le : (L × Option G) → (L × Option G) → Bool) (use
     simp at hrk
   simp [this]
 
-/-- the records named `name` all have the same usable key ⇒ the joined row is the column means over exactly
-    these records -/
-theorem lookupLast_some (le : (L × Option G) → (L × Option G) → Bool) (useGrp : Bool) (t : Nat)
+/-- the records named `name` all have the same usable key ⇒ the joined row is `f` of exactly these records' rows -/
+theorem lookupLast_aggWith_some (f : List (List α) → ρ) (le : (L × Option G) → (L × Option G) → Bool) (useGrp : Bool)
     (recs : List (Rec L G α)) (name : L) (k₀ : L × Option G) (r₀ : Rec L G α) (hr₀ : r₀ ∈ recs)
     (hname : r₀.taxa = name)
     (hkey : ∀ r ∈ recs, r.taxa = name → keyOf useGrp r = some k₀) :
-    lookupLast (agg le useGrp t recs) name =
-      some (colMeans t ((recs.filter (fun r => r.taxa = name)).map (·.vals))) := by
+    lookupLast (aggWith f le useGrp recs) name =
+      some (f ((recs.filter (fun r => r.taxa = name)).map (·.vals))) := by
   unfold lookupLast
-  rw [agg_filter_name]
+  rw [aggWith_filter_name]
   have hk₀ : k₀ ∈ aggKeys le useGrp recs := (mem_aggKeys le useGrp recs k₀).mpr ⟨r₀, hr₀, hkey r₀ hr₀ hname⟩
   have hk₀n : k₀.1 = name := (keyOf_fst useGrp r₀ k₀ (hkey r₀ hr₀ hname)).trans hname
   have hsing : (aggKeys le useGrp recs).filter (fun k => k.1 = name) = [k₀] := by
@@ -262,18 +261,57 @@ theorem lookupLast_some (le : (L × Option G) → (L × Option G) → Bool) (use
       exact hn ((keyOf_fst useGrp r k₀ hk).symm.trans hk₀n)
     simp [hn, this]
 
+/-- the aggregated frame does not depend on the row order (total order on the keys, `f` invariant under permutation) -/
+theorem aggWith_perm (f : List (List α) → ρ) (hf : ∀ a b : List (List α), a.Perm b → f a = f b)
+    (le : (L × Option G) → (L × Option G) → Bool)
+    (htot : ∀ a b, le a b = true ∨ le b a = true)
+    (htrans : ∀ a b c, le a b = true → le b c = true → le a c = true)
+    (hanti : ∀ a b, le a b = true → le b a = true → a = b)
+    (useGrp : Bool) {r₁ r₂ : List (Rec L G α)} (h : r₁.Perm r₂) :
+    aggWith f le useGrp r₁ = aggWith f le useGrp r₂ := by
+  unfold aggWith
+  rw [aggKeys_perm le htot htrans hanti useGrp h]
+  apply List.map_congr_left
+  intro k _
+  rw [hf _ _ (groupRows_perm useGrp h k)]
+
+end joinG
+
+section join
+variable {L G α : Type} [DecidableEq L] [DecidableEq G] [Field α]
+
+/-- the rows of `agg_df` whose taxon name is `name` -/
+theorem agg_filter_name (le : (L × Option G) → (L × Option G) → Bool) (useGrp : Bool) (t : Nat)
+    (recs : List (Rec L G α)) (name : L) :
+    (agg le useGrp t recs).filter (fun kv => kv.1.1 = name) =
+      ((aggKeys le useGrp recs).filter (fun k => k.1 = name)).map
+        (fun k => (k, colMeans t (groupRows useGrp recs k))) :=
+  aggWith_filter_name (colMeans t) le useGrp recs name
+
+/-- no record with a usable key carries the name ⇒ `KeyError` ⇒ the row stays NaN -/
+theorem lookupLast_none (le : (L × Option G) → (L × Option G) → Bool) (useGrp : Bool) (t : Nat)
+    (recs : List (Rec L G α)) (name : L) (h : ∀ r ∈ recs, r.taxa = name → keyOf useGrp r = none) :
+    lookupLast (agg le useGrp t recs) name = none :=
+  lookupLast_aggWith_none (colMeans t) le useGrp recs name h
+
+/-- the records named `name` all have the same usable key ⇒ the joined row is the column means over exactly
+    these records -/
+theorem lookupLast_some (le : (L × Option G) → (L × Option G) → Bool) (useGrp : Bool) (t : Nat)
+    (recs : List (Rec L G α)) (name : L) (k₀ : L × Option G) (r₀ : Rec L G α) (hr₀ : r₀ ∈ recs)
+    (hname : r₀.taxa = name)
+    (hkey : ∀ r ∈ recs, r.taxa = name → keyOf useGrp r = some k₀) :
+    lookupLast (agg le useGrp t recs) name =
+      some (colMeans t ((recs.filter (fun r => r.taxa = name)).map (·.vals))) :=
+  lookupLast_aggWith_some (colMeans t) le useGrp recs name k₀ r₀ hr₀ hname hkey
+
 /-- `agg_df` does not depend on the row order of the phenotype table (total order on the keys) -/
 theorem agg_perm (le : (L × Option G) → (L × Option G) → Bool)
     (htot : ∀ a b, le a b = true ∨ le b a = true)
     (htrans : ∀ a b c, le a b = true → le b c = true → le a c = true)
     (hanti : ∀ a b, le a b = true → le b a = true → a = b)
     (useGrp : Bool) (t : Nat) {r₁ r₂ : List (Rec L G α)} (h : r₁.Perm r₂) :
-    agg le useGrp t r₁ = agg le useGrp t r₂ := by
-  unfold agg
-  rw [aggKeys_perm le htot htrans hanti useGrp h]
-  apply List.map_congr_left
-  intro k _
-  rw [colMeans_perm t (groupRows_perm useGrp h k)]
+    agg le useGrp t r₁ = agg le useGrp t r₂ :=
+  aggWith_perm (colMeans t) (fun _ _ hp => colMeans_perm t hp) le htot htrans hanti useGrp h
 
 end join
 
